@@ -80,13 +80,10 @@ func runC15(c *Ctx) {
 		} else {
 			// O1 guard
 			okG := false
-			for _, g := range core.GuardsOf(call) {
-				cond, truth := core.StripNot(g.Cond, g.Truth)
-				if b, ok := cond.(*ssa.BinOp); ok {
-					if name, base, isF := core.IsLoadOfField(b.X); isF && name == "n" && base == lr {
-						if k, isK := core.ConstInt(b.Y); isK && k == 0 && ((b.Op == token.EQL && !truth) || (b.Op == token.NEQ && truth) || (b.Op == token.GTR && truth)) {
-							okG = true
-						}
+			for _, g := range core.Facts(rd).At(call.Block()) {
+				if v, isZero, ok := core.ZeroTest(g.Cond, g.Truth); ok && !isZero {
+					if name, base, isF := core.IsLoadOfField(v); isF && name == "n" && base == lr {
+						okG = true
 					}
 				}
 			}
@@ -154,10 +151,9 @@ func runC15(c *Ctx) {
 								}
 							}
 							okZ := false
-							for _, g := range core.GuardsOf(ret) {
-								cond, truth := core.StripNot(g.Cond, g.Truth)
-								if b, ok := cond.(*ssa.BinOp); ok && b.Op == token.EQL && truth {
-									if nm, bs, isL := core.IsLoadOfField(b.X); isL && nm == "n" && bs == lr {
+							for _, g := range core.Facts(rd).At(ret.Block()) {
+								if v, isZero, ok := core.ZeroTest(g.Cond, g.Truth); ok && isZero {
+									if nm, bs, isL := core.IsLoadOfField(v); isL && nm == "n" && bs == lr {
 										okZ = true
 									}
 								}
@@ -279,6 +275,7 @@ func runC15(c *Ctx) {
 					}
 				case *ssa.Call:
 					if in == call {
+						h.SetIntCell(w, "#forwarded", 1) // ghost: this path went through w.Write
 						ln, ok := h.Len(in.Call.Args[0])
 						lim := h.Field(w, limIdx, "limit", true)
 						off := h.Field(w, offIdx, "offset", true)
@@ -300,7 +297,8 @@ func runC15(c *Ctx) {
 					r0, ok := h.Int(in.Results[0])
 					lb, okB := h.Len(b)
 					h.Assert("writer.reports-len", "first result == len(b)", ok && okB && h.ProvesEQ(r0.Sub(lb)))
-					if !core.Dominates(call, in) {
+					if g, okG := h.IntCell(w, "#forwarded"); !okG || !h.ProvesEQ(g.AddK(-1)) {
+						// not known to have gone through w.Write
 						lim := h.Field(w, limIdx, "limit", true)
 						off := h.Field(w, offIdx, "offset", true)
 						h.Assert("writer.forward-exact", "a return that skips w.Write happens only when no budget is left (limit == offset)", h.ProvesEQ(lim.Sub(off)))
@@ -308,6 +306,7 @@ func runC15(c *Ctx) {
 				}
 			}
 			a.Entry(wr, func(h *lincon.Handle) {
+				h.SetIntCell(w, "#forwarded", 0)
 				// struct invariant assumed at entry, re-proved at the store
 				lim := h.Field(w, limIdx, "limit", true)
 				off := h.Field(w, offIdx, "offset", true)
